@@ -62,7 +62,7 @@ Theorem shortcut_value_correct : forall v k rows, nonneg rows -> 0 < k ->
 Proof. exact LogqlMetricProofs.shortcut_value_correct. Qed.
 Print Assumptions shortcut_value_correct.
 
-(* ... and the analysis admits only such ranges *)
+(* ... and the analysis accepts only such ranges *)
 Theorem shortcut_only_whole_slots : forall s, analyze_m15 s = true ->
   match first_lra s with Some l => exists k, 0 < k /\ lra_dur_ns l = 15000000000 * k | None => False end.
 Proof. exact analyze_m15_whole_slots. Qed.
